@@ -40,6 +40,11 @@ Oracle clauses (signature prefix)
   <proto>/unexpected-delivery/<how>      an application call nobody asked for
   escape/<proto>/<op>/<exception@where>  a client call raised something else than the documented SnepError
   stuck/<proto>/<op>/server-thread-died/<exception@where>   only with a recorded exception in a server thread
+  <proto>/<kind>/never-delivered/client-call-deadlocked   the client call waits without time-out, the link is quiescent,
+                                         the message (within every limit) never reached the peer application
+  .../connection-never-answered          suffix of the request-complete-on-wire and client-call-deadlocked signatures
+                                         when the message was the first of its connection and the server side never
+                                         sent an I/RR/RNR PDU on it (lost at connection set-up; findings-proposed F2)
 
 Quiescence ("never" instead of "not yet", no clock involved): the link is alive, the wire carried only SYMM for
 SETTLE_SYMM consecutive frames twice in a row with no other frame in between, and at both looks every thread that
@@ -49,9 +54,13 @@ book by then will never be delivered.  The thread look can only withhold a verdi
 
 Blocked calls: a client thread that is still inside a call although the wire has been idle for longer than any
 time-out is INCONCLUSIVE (stack + socket states in the reason) unless (1) the same connection already has a violation
-(consequence, counted), (2) the peer application was meanwhile called with other octets (that is the violation), or
+(consequence, counted), (2) the peer application was meanwhile called with other octets (that is the violation),
 (3) it is the final close() after every transfer of the connection was judged (not a statement about delivery; counted
-as close_blocked_after_all_transfers_were_judged).  After a violation or a blocked call the link is replaced, nothing
+as close_blocked_after_all_transfers_were_judged), or (4) the blocking is a deadlock visible as a structure: the
+client thread is parked in Condition.wait(timeout=None), the link is quiescent (above) and the message of the call,
+which is within every limit, is not in the book - nothing is left that could deliver it (never-delivered/
+client-call-deadlocked; the harness watchdog only decides *when* to look, the verdict needs all of these facts; a
+blocked call whose message was delivered stays INCONCLUSIVE).  After a violation or a blocked call the link is replaced, nothing
 observed later on it could be attributed.  VF_C06_DEBUG=<dir> dumps the scenario of an unexplained blocked call.
 """
 import importlib.util
@@ -67,14 +76,17 @@ LEVEL = "exploration"
 RULE = ("a case is one transfer (SNEP put, SNEP get, handover request+select) executed over a live link between two "
         "real LLCs; generated per link: link MIU of both ends (128..2175), aggregation on/off per end, server socket "
         "MIU/RW, client socket MIU/RW (tuned client subclass, HandoverClient.connect arguments), client on the "
-        "initiator or on the target end, explicit or implicit SNEP connection, 1-4 transfers per connection, 1-2 "
+        "initiator or on the target end, explicit or implicit SNEP connection, 1-5 transfers per connection, 1-2 "
         "concurrent connections per batch, several batches per link; message sizes 0, 3, small, random up to 6 "
         "connection MIUs and every offset -7..+7 around k*MIU measured both on the NDEF octets and on the SNEP "
         "message (header included); about 40 % of the SNEP connections are 'chains': explicit connect(), 2-5 "
         "operations whose whole SNEP message (get response, get request, put request; header included) is "
         "k*MIU-7..k*MIU+7 with -1/0/+1 weighted, every one followed by at least one more operation on the same "
         "connection, all within the acceptable lengths; acceptable-length limits (server max_acceptable_length, client "
-        "max_ndef_msg_recv_size) placed at size-7..size+7.  Distinct = (protocol, kind, size(s), connection MIUs, "
+        "max_ndef_msg_recv_size) placed at size-7..size+7; every shard additionally runs the sequence-number wrap "
+        "class: per receive window 1, 2, 15 one link with all receiving sockets at MIU 128 carrying single messages "
+        "of 17+RW..40 fragments in each direction (put request, get response, handover request, handover select) "
+        "and SNEP and handover connections with 20-24 (RW 15: 34-36) operations.  Distinct = (protocol, kind, size(s), connection MIUs, "
         "role, aggregation flags, window sizes, limit relation); non-trivial = both ends of the transfer reached the "
         "comparison of the octets at the receiving application.  Part (b) repeats the scenarios (one connection at "
         "a time) over the complete stack with NFC-DEP LRi/LRt 0..3, bit rate selection 0..2 and active/passive mode")
@@ -89,7 +101,7 @@ ASSUMPTIONS = [
 REQUIRED = ["snep_put_checked", "snep_get_checked", "ho_request_checked", "ho_response_checked",
             "snep_put_oversize_refused", "snep_get_excess_refused", "fragmented_requests", "fragmented_responses",
             "wire_I_pdus", "wire_snep_continue", "wire_snep_reject", "followed_boundary_ops",
-            "followed_get_response_exactly_k_miu"]
+            "followed_get_response_exactly_k_miu", "seqwrap_transfers", "seqwrap_long_connections"]
 
 CALL_TIMEOUT = 3.0          # timeout argument given to put/get/recv_octets (nfcpy waits on it with real time)
 SETTLE_SYMM = 4             # consecutive SYMM frames that count as "wire idle"
@@ -117,9 +129,11 @@ def fullstack_available():
 def plan(tier, seed):
     n = 16
     if tier == "quick":
-        descs = [{"kind": "pipe", "links": 6, "batches": 7, "maxk": 3, "slow_limit": 8, "timeout": 240} for _ in range(n)]
+        descs = [{"kind": "pipe", "links": 6, "batches": 9, "maxk": 3, "slow_limit": 8, "timeout": 240} for _ in range(n)]
     else:
         descs = [{"kind": "pipe", "links": 64, "batches": 10, "maxk": 6, "slow_limit": 100, "timeout": 3000} for _ in range(n)]
+    for d in descs:                # sequence-number wrap class (gen_seqwrap): links per shard = 3 receive windows x rounds
+        d["seqwrap_rounds"] = 1 if tier == "quick" else 4
     if fullstack_available():      # part (b): complete-stack links (one connection at a time) on top of the sweep
         for i in range(n):
             if tier == "quick":
@@ -686,6 +700,53 @@ def gen_script(rng, cfg, nbatches, edges, mids):
     return script
 
 
+SEQWRAP_RW = (1, 2, 15)
+
+
+def gen_seqwrap(rng, rw, mids):
+    """sequence-number wrap class: one link whose receiving sockets all have MIU 128 and receive window `rw`; single
+    messages of more than 16 + rw fragments (up to 40) in each direction (SNEP put request, SNEP get response,
+    handover request, handover select) and long-lived connections with at least 20 (34 for rw 15) operations, so
+    that N(S)/N(R) of one data link connection go round the modulo-16 space past the window in one direction"""
+    cfg = {"miu": {e: rng.choice([128, 128, 200, 2175]) for e in "AB"}, "agf": {e: rng.random() < 0.5 for e in "AB"},
+           "lto": 2500, "switch": rng.choice([0.005, 0.001, 0.0001]), "snep": {}, "ho": {}}
+    for e in "AB":
+        cfg["snep"][e] = [{"recv_miu": 128, "recv_buf": rw, "max_len": None}, {"recv_miu": 128, "recv_buf": rw, "max_len": 8192}]
+        cfg["ho"][e] = {"recv_miu": 128, "recv_buf": rw}
+    lo, hi = 17 + rw, 40
+
+    def frags():
+        return rng.randint(lo, hi) * 128 + rng.choice([-1, 0, 0, 1])
+
+    def snep(ops, kind, acc=1024):
+        return {"proto": "snep", "end": rng.choice("AB"), "svc": rng.choice([0, 0, 1]), "implicit": False,
+                "tuned": {"miu": 128, "rw": rw}, "acc": acc, "ops": ops, "seqwrap": kind}
+
+    script = []
+    script.append([snep([{"op": "put", "n": frags() - 6, "mid": next(mids)}], "single")])
+    nr = frags() - 6
+    script.append([snep([{"op": "get", "nq": rng.choice([3, 20, 60]), "nr": nr, "mid": next(mids), "rmid": next(mids)}], "single",
+                        acc=nr + rng.choice([0, 1, 1000]))])
+    script.append([{"proto": "ho", "end": rng.choice("AB"), "miu": 128, "rw": rw, "seqwrap": "single",
+                    "ops": [{"op": "ho", "nq": frags(), "nr": frags(), "mid": next(mids), "rmid": next(mids)}]}])
+    nops = rng.randint(20, 24) if rw < 15 else rng.randint(34, 36)
+    ops = []
+    for _ in range(nops):
+        r = rng.random()
+        big = r < 0.15
+        if rng.random() < 0.5:
+            ops.append({"op": "put", "n": feasible_ndef_size(rng.randint(130, 380) if big else rng.randint(0, 122)), "mid": next(mids)})
+        else:
+            ops.append({"op": "get", "nq": rng.choice([3, 20, rng.randint(4, 118)]), "mid": next(mids), "rmid": next(mids),
+                        "nr": feasible_ndef_size(rng.randint(130, 380) if big else rng.randint(0, 122))})
+    script.append([snep(ops, "long", acc=1024)])
+    ops = [{"op": "ho", "nq": rng.randint(16, 128), "nr": rng.randint(16, 128), "mid": next(mids), "rmid": next(mids)}
+           for _ in range(nops)]
+    script.append([{"proto": "ho", "end": rng.choice("AB"), "miu": 128, "rw": rw, "seqwrap": "long", "ops": ops}])
+    rng.shuffle(script)
+    return cfg, script
+
+
 def materialize(conn):
     """octets of every message of a connection script (deterministic in sizes and ids)"""
     for op in conn["ops"]:
@@ -727,6 +788,15 @@ def run_conn(link, conn, res):
                 res["send_miu"] = cl.socket.getsockopt(nfc.llcp.SO_SNDMIU)
                 res["recv_miu"] = cl.socket.getsockopt(nfc.llcp.SO_RCVMIU)
                 res["sap"] = cl.socket.getsockname()
+            else:
+                # put_octets / get_octets connect by themselves through the public connect(): note the local SAP of
+                # each of these connections (attribution of wire frames in concurrent batches), nothing else changes
+                inner_connect = cl.connect
+
+                def connect(service_name):
+                    inner_connect(service_name)
+                    res["sap_now"] = cl.socket.getsockname()
+                cl.connect = connect
         else:
             cl = nfc.handover.HandoverClient(llc)
             cl.connect(recv_miu=conn["miu"], recv_buf=conn["rw"])
@@ -740,6 +810,7 @@ def run_conn(link, conn, res):
         for i, op in enumerate(conn["ops"]):
             res["phase"] = "op%d:%s" % (i, op["op"])
             o = {"seq0": book.tick(), "f0": len(link.frames)}
+            res["sap_now"] = None
             res["cur"] = (i, o)          # the call in progress (looked at when the thread blocks)
             t0 = time.monotonic()
             try:
@@ -764,6 +835,8 @@ def run_conn(link, conn, res):
             except Exception as e:
                 o["outcome"] = ("exc", exc_sig(e), repr(e)[:200])
             o["dt"] = time.monotonic() - t0
+            if res.get("sap_now") is not None:
+                o["sap"] = res["sap_now"]
             o["seq1"] = book.tick()
             o["f1"] = len(link.frames)
             res["ops"].append(o)
@@ -783,6 +856,16 @@ def run_conn(link, conn, res):
 def thread_stack(th):
     fr = sys._current_frames().get(th.ident)
     return "".join(traceback.format_stack(fr)[-8:]) if fr is not None else "?"
+
+
+def parked_without_timeout(th):
+    """the thread is inside threading.Condition.wait(timeout=None)"""
+    fr = sys._current_frames().get(th.ident)
+    try:
+        return bool(fr is not None and fr.f_code.co_filename.replace("\\", "/").endswith("/threading.py")
+                    and fr.f_code.co_name == "wait" and "timeout" in fr.f_locals and fr.f_locals["timeout"] is None)
+    except Exception:
+        return False
 
 
 _SERVER_FILES = ("/nfc/snep/server.py", "/nfc/handover/server.py")
@@ -926,18 +1009,20 @@ class Evaluator:
                           "arrived) and the link is quiescent, but only %d information octets went to the server for a %d octet "
                           "request (first difference at octet %d)" % (fate["sent"], fate["need"], fate["diff"]), conn, opi)
             else:
-                self.viol(pfx + "/lost-after-success/request-complete-on-wire", "client call reported success (no response arrived); "
+                self.viol(pfx + "/lost-after-success/request-complete-on-wire" + self.never_answered(conn, opi, fate),
+                          "client call reported success (no response arrived); "
                           "the whole %d octet request crossed the link in %d I PDU(s) (%s by the server's connection), the "
                           "server sent %d I PDU(s) back, the link is quiescent with every server thread waiting for input - the "
                           "peer application never got the %d octet %s message"
-                          % (fate["need"], fate["pdus"], "all acknowledged" if fate["acked"] else "not all acknowledged",
+                          % (fate["need"], fate["pdus"], "all acknowledged" if fate["acked"] else "not acknowledged",
                              fate["down"], len(msg), kind), conn, opi)
             return False
         if not link.alive() or not link.settle():
             R.inconc("%s %s: message missing at the peer application but the link is not alive/idle" % (proto, kind))
             return False
         sent = self.wire_bytes(conn, o)
-        self.viol(pfx + "/lost-after-success", "client call reported success, link idle, the peer application never got "
+        self.viol(pfx + "/lost-after-success" + self.never_answered(conn, opi, self.request_fate(conn, conn["ops"][opi], o)),
+                  "client call reported success, link idle, the peer application never got "
                   "the %d octet %s message%s" % (len(msg), kind, sent), conn, opi)
         return False
 
@@ -963,6 +1048,48 @@ class Evaluator:
                   "called %d time(s) with other octets (%d octets); the client call then blocked"
                   % (len(op["_msg"]), kind, len(wrong), len(wrong[0]["octets"])), conn, opi)
 
+    def deadlocked_call(self, conn, res, th):
+        """the client thread is still inside a call.  A verdict only for a deadlock that is visible as a structure, not
+        as elapsed time: the client thread is parked in a wait without time-out, the link is quiescent (alive, wire
+        idle at two looks, every server thread parked waiting for input) and the message of the call - which is within
+        every limit - was never given to the peer application: nothing is left that could ever deliver it"""
+        cur = res.get("cur")
+        if not cur:
+            return
+        opi, o = cur
+        op = conn["ops"][opi]
+        link = self.link
+        if not op_expects_delivery(self.cfg, conn, op) and not op_expect_refusal(self.cfg, conn, op, strict=True):
+            return                      # (get request in the zone the statement does not decide)
+        if not (parked_without_timeout(th) and link.quiesce() and parked_without_timeout(th)) or res.get("cur") is not cur:
+            return
+        if not op_expects_delivery(self.cfg, conn, op):
+            # an over-size request has to be refused with the protocol's error response: none went out and none will
+            codes = self.snep_codes_since(conn, o)
+            if codes is not None and not any(c >= 0xC0 for c in codes):
+                self.R.count("deadlocked_calls_judged_at_quiescence")
+                self.viol("snep/%s/oversize/no-error-response-on-wire/client-call-deadlocked" % op["op"]
+                          + self.never_answered(conn, opi, self.request_fate(conn, op, o)),
+                          "the client call for an over-size %s request (%d octets) waits without time-out, the link is quiescent "
+                          "with every server thread waiting for input and no SNEP error response went to the client"
+                          % (op["op"], len(op["_msg"])), conn, opi)
+            return
+        proto = "snep" if conn["proto"] == "snep" else "handover"
+        svc, layer = ("ho", "app") if proto == "handover" else ("snep%d" % conn["svc"], "raw")
+        kind = "ho" if proto == "handover" else op["op"]
+        if [e for e in self.entries(other(conn["end"]), svc, layer, o["seq0"], unclaimed=False) if e["octets"] == op["_msg"]]:
+            return                      # delivered: the blocked call is not a statement about delivery
+        fate = self.request_fate(conn, op, o)
+        wire = "" if fate is None else (" (%d of %d request octets crossed the link in %d I PDU(s), %s; %d I PDU(s) came back)"
+                                        % (min(fate["sent"], fate["need"]), fate["need"], fate["pdus"],
+                                           "all acknowledged" if fate["acked"] else "not acknowledged", fate["down"]))
+        self.R.count("deadlocked_calls_judged_at_quiescence")
+        pfx = "%s/%s" % (proto, "request" if proto == "handover" else kind)
+        self.viol(pfx + "/never-delivered/client-call-deadlocked" + self.never_answered(conn, opi, fate),
+                  "the client call for a %d octet %s message waits without time-out, "
+                  "the link is quiescent with every server thread waiting for input, and the peer application never got the "
+                  "message%s" % (len(op["_msg"]), kind, wire), conn, opi)
+
     def wire_streams(self, conn, o):
         """concatenated information octets of the I PDUs client->server and server->client since the call began;
         None when the frames cannot be attributed to this connection (concurrent batch without a known client SAP)"""
@@ -985,7 +1112,7 @@ class Evaluator:
         """I / RR / RNR PDUs of this connection since the call began, in wire order, as (up?, pdu); None when the
         frames cannot be attributed (concurrent batch without a known client SAP)"""
         res = conn.get("_res") or {}
-        sap = res.get("sap")
+        sap = res.get("sap") or o.get("sap") or (res.get("sap_now") if res.get("cur") and res["cur"][1] is o else None)
         if not conn.get("_single") and sap is None:
             return None
         d_up = "A>B" if conn["end"] == "A" else "B>A"
@@ -1019,7 +1146,7 @@ class Evaluator:
             k += 1
         complete = bytes(up[:len(req)]) == req
         acked, down = False, 0
-        if complete and last_at is not None:
+        if last_at is not None:          # N(R) behind the last request I PDU that crossed = all of them were taken
             for is_up, p in pdus[last_at + 1:]:
                 if not is_up:
                     if p["nr"] == (last_ns + 1) % 16:
@@ -1027,7 +1154,15 @@ class Evaluator:
                     if p["t"] == "I":
                         down += 1
         self.R.count("timed_out_calls_checked_on_wire")
-        return {"complete": complete, "sent": len(up), "need": len(req), "diff": k, "pdus": npdus, "acked": acked, "down": down}
+        return {"complete": complete, "sent": len(up), "need": len(req), "diff": k, "pdus": npdus, "acked": acked, "down": down,
+                "answered": any(not is_up for is_up, _p in pdus)}
+
+    @staticmethod
+    def never_answered(conn, opi, fate):
+        """signature discriminator: the lost message was the first of its connection and the server side never sent
+        an I, RR or RNR PDU on that connection - the connection was lost at set-up, not in the middle of a dialogue"""
+        first = opi == 0 or bool(conn.get("implicit"))
+        return "/connection-never-answered" if first and fate is not None and not fate["answered"] else ""
 
     def snep_codes_since(self, conn, o):
         """response codes of the header-only SNEP responses the server sent to this connection since the call began
@@ -1059,10 +1194,11 @@ class Evaluator:
             self.viol(sigpfx + "/no-response", "%s; the link is quiescent and the server application was never called with the "
                       "message" % text, conn, opi)
         else:
-            self.viol(sigpfx + "/request-complete-on-wire", "%s; the whole %d octet request crossed the link in %d I PDU(s) (%s by "
+            self.viol(sigpfx + "/request-complete-on-wire" + self.never_answered(conn, opi, fate),
+                      "%s; the whole %d octet request crossed the link in %d I PDU(s) (%s by "
                       "the server's connection), the server sent %d I PDU(s) back, the link is quiescent with every server thread "
                       "waiting for input - the server application was never called with the message"
-                      % (text, fate["need"], fate["pdus"], "all acknowledged" if fate["acked"] else "not all acknowledged",
+                      % (text, fate["need"], fate["pdus"], "all acknowledged" if fate["acked"] else "not acknowledged",
                          fate["down"]), conn, opi)
         return True
 
@@ -1176,6 +1312,8 @@ def evaluate_batch(ev, batch, results):
                 link.history.add(op["_resp"])
             if op.get("_oversize"):
                 oversize_seen = True
+            if ok is True and opi == len(conn["ops"]) - 1 and single:
+                note_connection_totals(R, cfg, conn, res)
             if ok is False:
                 # nothing later on this connection is judged: its application calls are consequences
                 R.count("conn_rest_skipped_after_violation", len(res["ops"]) - opi - 1)
@@ -1190,6 +1328,25 @@ def evaluate_batch(ev, batch, results):
                         e["claimed"] = True
                 break
     return oversize_seen
+
+
+def note_connection_totals(R, cfg, conn, res):
+    """evidence: I PDUs one data link connection carried in one direction while all its transfers were verified (the
+    last one just now); more than 16 + RW(receiver) means the sequence numbers went round past the window"""
+    up = sum(o.get("nup", 0) for o in res["ops"])
+    down = sum(o.get("ndown", 0) for o in res["ops"])
+    R.max("max_i_pdus_one_direction_per_connection", max(up, down))
+    R.max("max_operations_per_connection", len(res["ops"]))
+    if conn.get("seqwrap"):
+        srv = cfg["ho"][other(conn["end"])] if conn["proto"] == "ho" else cfg["snep"][other(conn["end"])][conn["svc"]]
+        rw_up = srv["recv_buf"]
+        rw_down = conn["rw"] if conn["proto"] == "ho" else conn["tuned"]["rw"]
+        wrapped = [d for d, n, rw in (("request", up, rw_up), ("response", down, rw_down)) if n > 16 + rw]
+        for d in wrapped:
+            R.seen("seqwrap_%s_receive_window" % d, rw_up if d == "request" else rw_down)
+            R.seen("seqwrap_kind", "%s-%s-%s" % (conn["proto"], conn["seqwrap"], d))
+        if wrapped:
+            R.count("seqwrap_transfers" if conn["seqwrap"] == "single" else "seqwrap_long_connections")
 
 
 def note_followed(R, cfg, conn, res, prev):
@@ -1238,6 +1395,7 @@ def eval_op(ev, conn, res, opi, op, o, srv_end, batch_msgs, single):
 
     if single:
         nup, ndown, codes = ev.wire_stats(conn, o)
+        o["nup"], o["ndown"] = nup, ndown
         R.count("wire_I_pdus", nup + ndown)
         R.seen("fragments_per_request", nup)
         R.seen("fragments_per_response", ndown)
@@ -1313,8 +1471,9 @@ def eval_op(ev, conn, res, opi, op, o, srv_end, batch_msgs, single):
                 codes_now = ev.snep_codes_since(conn, o) if link.quiesce() else None
                 if codes_now is not None and not any(c >= 0xC0 for c in codes_now):
                     R.count("timed_out_calls_judged_at_quiescence")
-                    ev.viol("snep/put/oversize/no-error-response-on-wire", "put of %d octets to a server accepting %d reported success "
-                            "(no response arrived) and the quiescent link shows no SNEP error response" % (n, L), conn, opi)
+                    ev.viol("snep/put/oversize/no-error-response-on-wire" + ev.never_answered(conn, opi, ev.request_fate(conn, op, o)),
+                            "put of %d octets to a server accepting %d reported success (no response arrived) and the quiescent "
+                            "link shows no SNEP error response" % (n, L), conn, opi)
                     return False
                 R.inconc("over-size put: client call ended by its time-out")
                 return False
@@ -1630,6 +1789,8 @@ def run_link(cfg, script, R, budget=None, factory=None):
                 died = [x for x in link.book.thread_exc if "@nfc/" in x[1]]
                 if not conn.get("_violated") and res.get("cur"):
                     ev.blocked_call(conn, res)
+                if not conn.get("_violated") and res.get("cur"):
+                    ev.deadlocked_call(conn, res, t)
                 if conn.get("_violated"):
                     R.count("blocked_after_violation_on_same_connection")
                 elif res.get("phase") == "close" and len(res.get("ops", [])) == len(conn["ops"]):
@@ -1705,13 +1866,23 @@ def _debug_dump(case, conn, res):
                                 "phase": res.get("phase")}), f)
 
 
-def op_expect_refusal(cfg, conn, op):
+def op_expects_delivery(cfg, conn, op):
+    """the message of the operation is within the server's acceptable length: it has to reach the application"""
+    if conn["proto"] != "snep":
+        return True
+    L = cfg["snep"][other(conn["end"])][conn["svc"]]["max_len"]
+    L = SNEP_DEFAULT_MAX if L is None else L
+    return len(op["_msg"]) <= L if op["op"] == "put" else len(op["_msg"]) + 4 <= L
+
+
+def op_expect_refusal(cfg, conn, op, strict=False):
+    """strict: the NDEF message itself is larger than the acceptable length (not only the get information field)"""
     if conn["proto"] != "snep":
         return False
     L = cfg["snep"][other(conn["end"])][conn["svc"]]["max_len"]
     if L is None:
         return False
-    return (op["op"] == "put" and op["n"] > L) or (op["op"] == "get" and op["nq"] + 4 > L)
+    return (op["op"] == "put" and op["n"] > L) or (op["op"] == "get" and op["nq"] + (0 if strict else 4) > L)
 
 
 def finish_links(budget, R):
@@ -1734,6 +1905,7 @@ def run(desc, R, rng):
     classes()
     budget = Budget(desc.get("slow_limit", 8))
     if desc.get("kind", "pipe") == "pipe":
+        run_seqwrap(desc, R, random.Random(rng.getrandbits(64)))
         edges = Edges(rng, desc.get("maxk", 3))
         for li in range(desc["links"]):
             cfg = gen_cfg(rng)
@@ -1747,6 +1919,23 @@ def run(desc, R, rng):
         finish_links(budget, R)
     if desc.get("fullstack"):
         run_fullstack(desc, R, rng)
+
+
+def run_seqwrap(desc, R, rng):
+    """the sequence-number wrap class, with a budget of its own (a defect elsewhere must not starve it, nor it the sweep)"""
+    budget = Budget(slow_limit=4)
+    rws = list(SEQWRAP_RW)
+    for _round in range(desc.get("seqwrap_rounds", 1)):
+        rng.shuffle(rws)
+        for rw in rws:
+            cfg, script = gen_seqwrap(rng, rw, mid_counter(1))
+            run_link(cfg, script, R, budget)
+            R.count("seqwrap_links")
+            if budget.exhausted():
+                R.count("seqwrap_stopped_early_after_blocked_or_timed_out_calls")
+                finish_links(budget, R)
+                return
+    finish_links(budget, R)
 
 
 def replay(case, R):
